@@ -89,21 +89,32 @@ def run_property(pid, tier, repo, seed, overrides=None, quiet=False, unit_filter
             importlib.reload(sys.modules[m])
         else:
             importlib.import_module(m)
-    units = [u for u in runner.UNITS if pid in u.props]
+    units = [u for u in runner.UNITS if pid in u.props and (tier == 'thorough' or not u.thorough_only)]
     if unit_filter:
         units = [u for u in units if unit_filter in u.name]
     jobs = []
-    timeout_ms = 20000 if tier == 'quick' else 60000
+    timeout_ms = 60000 if tier == 'quick' else 180000
     for u in units:
         for dm in u.debug_modes:
             jobs.append((spec['modules'], u.name, dm, repo, overrides, timeout_ms, tier == 'thorough', seed % 1000))
     nproc = min(16, max(1, len(jobs)))
-    if nproc == 1:
+    wall = 400 if tier == 'quick' else 1800
+    if nproc == 1 and not os.environ.get('PYVC_FORCE_POOL'):
         results = [_job(j) for j in jobs]
     else:
         ctx = mp.get_context('fork')
-        with ctx.Pool(nproc) as pool:
-            results = pool.map(_job, jobs, chunksize=1)
+        pool = ctx.Pool(nproc, maxtasksperchild=1)
+        asyncs = [pool.apply_async(_job, (j,)) for j in jobs]
+        results = []
+        deadline = time.time() + wall
+        for j, a in zip(jobs, asyncs):
+            try:
+                results.append(a.get(timeout=max(1, deadline - time.time())))
+            except mp.TimeoutError:
+                # a solver call that ignores its own timeout must not hang the check: undecided, never a verdict
+                results.append({'unit': j[1], 'debug': j[2], 'obligations': [], 'undecided': ['wall-clock limit of %ds exceeded (solver did not return)' % wall], 'error': None})
+        pool.terminate()
+        pool.join()
     return units, results
 
 
